@@ -47,6 +47,14 @@ pub enum TOp {
     Serialise { wire: Wire },
     /// serialise, deserialise, and describe the copy
     RoundTrip { wire: Wire },
+    /// LAST call of a history only: a neighbour of `u` is dropped while still connected, then `u`
+    /// is asked what needs no walk over its lists (degrees, root/leaf/orphan). (A later walk past
+    /// the dead entry panics in every flavour, which is why nothing may follow.)
+    Dangling { u: usize, towards: bool },
+    /// deserialise a document no serialiser writes - a key declared twice with different values,
+    /// repeated edges, self-loops, a missing edge list - and describe the result: which mention
+    /// wins and what the copy looks like must not depend on the flavour
+    DeHandWritten { wire: Wire, variant: u8 },
     /// compare the i-th edge of u with the j-th edge of v with `==`
     EdgeEq { u: usize, i: usize, v: usize, j: usize },
     EdgeReverse { u: usize, i: usize },
@@ -260,6 +268,60 @@ fn exec<F: Flavour>(w: &mut World<F>, extras: &mut Vec<F::Node>, op: &TOp) -> Ob
             },
             Err(e) => Obs::Text(format!("error: {e}")),
         },
+        TOp::Dangling { u, towards } => {
+            if *u >= w.nodes.len() {
+                return Obs::Unit;
+            }
+            let t = F::node_new(gen::NO_SUCH_KEY - 2, crate::payload::NVal::new(0, 8000));
+            if *towards {
+                F::connect(&w.nodes[*u], &t, crate::payload::EVal::new(42_000));
+            } else {
+                F::connect(&t, &w.nodes[*u], crate::payload::EVal::new(42_000));
+            }
+            drop(t);
+            let x = &w.nodes[*u];
+            Obs::Text(format!(
+                "after a connected neighbour was dropped: out_degree {} in_degree {} is_orphan {} is_leaf {} is_root {}",
+                F::out_degree(x),
+                F::in_degree(x),
+                F::is_orphan(x),
+                F::is_leaf(x),
+                F::is_root(x)
+            ))
+        }
+        TOp::DeHandWritten { wire, variant } => {
+            use crate::keys::kin;
+            type Doc = (Vec<(usize, (u32, u64))>, Vec<(usize, usize, u64)>);
+            let (a, b, c) = (kin(0), kin(1), kin(2));
+            let doc: Doc = match variant % 4 {
+                0 => (vec![(a, (1, 10)), (b, (2, 11)), (a, (3, 12))], vec![(a, b, 50), (b, a, 51)]),
+                1 => (vec![(a, (1, 10)), (a, (2, 11))], vec![(a, a, 50), (a, a, 51)]),
+                2 => (vec![(c, (0, 10)), (b, (1, 11)), (c, (2, 12)), (b, (3, 13))], vec![(b, c, 50), (c, b, 51), (b, c, 52)]),
+                _ => (vec![], vec![]),
+            };
+            let bytes = if variant / 4 % 2 == 1 {
+                // the edge list left out altogether
+                if wire.is_cbor() { serde_cbor::to_vec(&(&doc.0,)).unwrap() } else { serde_json::to_vec(&(&doc.0,)).unwrap() }
+            } else if wire.is_cbor() {
+                serde_cbor::to_vec(&doc).unwrap()
+            } else {
+                serde_json::to_vec(&doc).unwrap()
+            };
+            match F::g_de(&bytes, *wire) {
+                Ok(g2) => {
+                    let mut d: Vec<(usize, u32, u64, Vec<(usize, u64)>, Vec<(usize, u64)>)> = F::g_iter(&g2)
+                        .iter()
+                        .map(|(k, n)| {
+                            let (o, i) = World::<F>::lists_of(n);
+                            (*k, F::prio(n), F::vid(n), o, i)
+                        })
+                        .collect();
+                    d.sort();
+                    Obs::Text(format!("{d:?}"))
+                }
+                Err(_) => Obs::Text("deserialise error".into()),
+            }
+        }
         TOp::EdgeEq { u, i, v, j } => {
             let a = nth_edge::<F>(&w.nodes[*u], *i);
             let b = nth_edge::<F>(&w.nodes[*v], *j);
@@ -462,6 +524,7 @@ impl Engine for Twin {
                 }),
                 82..=85 => TOp::Scc,
                 86..=88 => TOp::Serialise { wire },
+                89 if rng.coin() => TOp::DeHandWritten { wire, variant: rng.below(8) as u8 },
                 89..=91 => TOp::RoundTrip { wire },
                 92..=93 => TOp::EdgeEq { u: rng.below(n), i: rng.below(3), v: rng.below(n), j: rng.below(3) },
                 94..=95 => TOp::EdgeCmp { u: rng.below(n), i: rng.below(3), v: rng.below(n), j: rng.below(3) },
@@ -520,6 +583,9 @@ impl Engine for Twin {
                 _ => TOp::NodeCmp { u: rng.below(n), v: rng.below(n) },
             };
             ops.push(op);
+        }
+        if rng.chance(1, 10) {
+            ops.push(TOp::Dangling { u: rng.below(n), towards: rng.coin() });
         }
         TwinSc {
             pair,
@@ -609,6 +675,7 @@ impl Engine for Twin {
                     TOp::Insert { u } => *u == k,
                     TOp::InsertOther { k: x, nb } => *x == k || *nb == k,
                     TOp::TryConnectTwin { u, k: x } => *u == k || *x == k,
+                    TOp::Dangling { u, .. } => *u == k,
                     TOp::Remove { k: x, .. } | TOp::Get { k: x } | TOp::Index { k: x } | TOp::Contains { k: x } => *x == k,
                     TOp::EdgeEq { u, v, .. } | TOp::EdgeCmp { u, v, .. } | TOp::NodeCmp { u, v } => *u == k || *v == k,
                     TOp::EdgeReverse { u, .. } | TOp::IterInto { u } => *u == k,
